@@ -125,6 +125,10 @@ pub struct Scn {
     /// the byte source of the crate's (single-threaded) reader hands out at most this many bytes per read call (cycle)
     #[serde(default)]
     pub src_chunks: Vec<usize>,
+    /// writer families: the sink accepts at most this many bytes per write call (cycle); the output must equal the output
+    /// into an unlimited sink
+    #[serde(default)]
+    pub sink_chunks: Vec<usize>,
     /// writer families: the scenario's data is a random block of this many bytes repeated cyclically
     /// (matches at exactly this distance)
     #[serde(default)]
@@ -147,6 +151,34 @@ thread_local! {
     /// (source position when read() first returned 0, results of two further read() calls, source position after them)
     static SRC_POS: std::cell::Cell<usize> = const { std::cell::Cell::new(0) };
     static EOS: std::cell::RefCell<Option<(usize, Vec<String>, usize)>> = const { std::cell::RefCell::new(None) };
+}
+
+/// A sink that accepts at most `chunks[i]` bytes per write call (cycle; empty = everything): short writes are legal for io::Write.
+pub struct ChunkSink {
+    pub data: Vec<u8>,
+    pub chunks: Vec<usize>,
+    pub calls: usize,
+}
+
+impl ChunkSink {
+    pub fn new(chunks: &[usize]) -> Self {
+        ChunkSink { data: Vec::new(), chunks: chunks.to_vec(), calls: 0 }
+    }
+}
+
+impl Write for ChunkSink {
+    fn write(&mut self, buf: &[u8]) -> std::io::Result<usize> {
+        let mut n = buf.len();
+        if !self.chunks.is_empty() {
+            n = n.min(self.chunks[self.calls % self.chunks.len()].max(1));
+        }
+        self.calls += 1;
+        self.data.extend_from_slice(&buf[..n]);
+        Ok(n)
+    }
+    fn flush(&mut self) -> std::io::Result<()> {
+        Ok(())
+    }
 }
 
 fn take_eos(fallback: usize) -> (usize, Value, usize) {
@@ -438,13 +470,17 @@ fn accepted(sc: &Script, res: &[Value]) -> Vec<u8> {
 
 fn run_xz_write(s: &Scn) -> Value {
     let sc = script(s);
-    let w = match XZWriter::new(Vec::new(), xz_opts(&s.opt)) {
-        Ok(w) => w,
-        Err(e) => return json!({"outcome":"new_err","err":errs(&e)}),
+    let produce = |chunks: &[usize]| -> Result<(Vec<Value>, Option<Vec<u8>>), String> {
+        let w = XZWriter::new(ChunkSink::new(chunks), xz_opts(&s.opt)).map_err(|e| errs(&e))?;
+        Ok(drive(&sc, w, |w, b| w.write(b), |w| w.flush(), |w| w.finish().map(|k| k.data)))
     };
-    let (res, file) = drive(&sc, w, |w, b| w.write(b), |w| w.flush(), |w| w.finish());
+    let (res, file) = match produce(&s.sink_chunks) {
+        Ok(x) => x,
+        Err(e) => return json!({"outcome":"new_err","err":e}),
+    };
     let want = accepted(&sc, &res);
     let Some(file) = file else { return json!({"outcome":"no_file","calls":res}) };
+    let sink_equal = if s.sink_chunks.is_empty() { Value::Null } else { json!(produce(&[]).ok().and_then(|x| x.1).as_deref() == Some(&file[..])) };
     let p = strict::parse_xz(&file, Some(&want));
     let mut src = CountSrc::new(file.clone(), &s.src_chunks);
     let mut rd = XZReader::new(&mut src, false);
@@ -453,18 +489,32 @@ fn run_xz_write(s: &Scn) -> Value {
     let (c0, again, c1) = take_eos(src.pos);
     json!({"outcome":"ok","calls":res,"file_len":file.len(),"recs":p.recs,"block_usizes":p.block_usizes,"strict_bad":p.bad,
            "rt":{"ok":err.is_none(),"err":err,"cmp":cmp(&out,&want)},"consumed":c0,"again":again,"consumed_after":c1,
-           "ref":reference("xz",&file,&want,0),"input_len":want.len(),"digest":gen::digest(&file),
+           "ref":reference("xz",&file,&want,0),"input_len":want.len(),"digest":gen::digest(&file),"sink_equal":sink_equal,
            "head": gen::hex(&file[..file.len().min(96)])})
 }
 
 fn run_lz_write(s: &Scn) -> Value {
     let sc = script(s);
-    let mut o = LZIPOptions { lzma_options: lzma_opts(&s.opt), member_size: None };
-    o.member_size = s.opt.limit.and_then(NonZeroU64::new);
-    let w = LZIPWriter::new(Vec::new(), o);
-    let (res, file) = drive(&sc, w, |w, b| w.write(b), |w| w.flush(), |w| w.finish());
+    let produce = |chunks: &[usize], opt: &Opt| -> (Vec<Value>, Option<Vec<u8>>) {
+        let mut o = LZIPOptions { lzma_options: lzma_opts(opt), member_size: None };
+        o.member_size = opt.limit.and_then(NonZeroU64::new);
+        let w = LZIPWriter::new(ChunkSink::new(chunks), o);
+        drive(&sc, w, |w, b| w.write(b), |w| w.flush(), |w| w.finish().map(|k| k.data))
+    };
+    let (res, file) = produce(&s.sink_chunks, &s.opt);
     let want = accepted(&sc, &res);
     let Some(file) = file else { return json!({"outcome":"no_file","calls":res}) };
+    let sink_equal = if s.sink_chunks.is_empty() { Value::Null } else { json!(produce(&[], &s.opt).1.as_deref() == Some(&file[..])) };
+    // lc / lp / pb are not LZIP options (the format fixes 3 / 0 / 2): the writer must ignore them
+    let lclppb_ignored = if s.opt.lc.is_some() || s.opt.lp.is_some() || s.opt.pb.is_some() {
+        let mut d = s.opt.clone();
+        d.lc = None;
+        d.lp = None;
+        d.pb = None;
+        json!(produce(&s.sink_chunks, &d).1.as_deref() == Some(&file[..]))
+    } else {
+        Value::Null
+    };
     let p = strict::parse_lz(&file, Some(&want));
     let mut src = CountSrc::new(file.clone(), &s.src_chunks);
     let (out, err) = match LZIPReader::new(&mut src) {
@@ -482,7 +532,8 @@ fn run_lz_write(s: &Scn) -> Value {
     };
     json!({"outcome":"ok","calls":res,"file_len":file.len(),"recs":p.recs,"data_sizes":p.data_sizes,"strict_bad":p.bad,
            "rt":{"ok":err.is_none(),"err":err,"cmp":cmp(&out,&want)},"consumed":c0,"again":again,"consumed_after":c1,"mt":mt,
-           "ref":reference("lz",&file,&want,0),"input_len":want.len(),"digest":gen::digest(&file)})
+           "ref":reference("lz",&file,&want,0),"input_len":want.len(),"digest":gen::digest(&file),"sink_equal":sink_equal,
+           "lclppb_ignored":lclppb_ignored})
 }
 
 fn run_lzma_write(s: &Scn) -> Value {
@@ -490,11 +541,11 @@ fn run_lzma_write(s: &Scn) -> Value {
     let lo = lzma_opts(&s.opt);
     let use_header = s.opt.header.unwrap_or(true);
     let marker = s.opt.marker.unwrap_or(s.opt.expected.is_none());
-    let w = match LZMAWriter::new(Vec::new(), &lo, use_header, marker, s.opt.expected) {
+    let w = match LZMAWriter::new(ChunkSink::new(&s.sink_chunks), &lo, use_header, marker, s.opt.expected) {
         Ok(w) => w,
         Err(e) => return json!({"outcome":"new_err","err":errs(&e)}),
     };
-    let (res, file) = drive(&sc, w, |w, b| w.write(b), |w| w.flush(), |w| w.finish());
+    let (res, file) = drive(&sc, w, |w, b| w.write(b), |w| w.flush(), |w| w.finish().map(|k| k.data));
     let want = accepted(&sc, &res);
     let Some(file) = file else { return json!({"outcome":"no_file","calls":res,"input_len":want.len()}) };
     let hdr = if use_header { strict::parse_lzma_header(&file) } else { json!({"k":"NoHdr","size":-2,"rc0": file.first() == Some(&0)}) };
@@ -524,8 +575,8 @@ fn run_lzma2_write(s: &Scn) -> Value {
     let lo = lzma_opts(&s.opt);
     let dict = lo.dict_size;
     let o = LZMA2Options { lzma_options: lo, chunk_size: s.opt.limit.and_then(NonZeroU64::new) };
-    let w = LZMA2Writer::new(Vec::new(), o);
-    let (res, file) = drive(&sc, w, |w, b| w.write(b), |w| w.flush(), |w| w.finish());
+    let w = LZMA2Writer::new(ChunkSink::new(&s.sink_chunks), o);
+    let (res, file) = drive(&sc, w, |w, b| w.write(b), |w| w.flush(), |w| w.finish().map(|k| k.data));
     let want = accepted(&sc, &res);
     let Some(file) = file else { return json!({"outcome":"no_file","calls":res}) };
     let (recs, walk) = strict::lzma2_records(&file);
